@@ -1007,7 +1007,9 @@ class TreeCase(Case):
         if mk != "none":
             c.params.update(mask_string="[M]", min_occurrences=2, nullify_mask=(mk == "nullify"))
         c.user_dict = {f"w{i}": i for i in range(vocab)} if tape.chance("tr.userdict", 1, 3) else None
-        c.desc.update(params=dict(c.params), user_token_dictionary=c.user_dict is not None, pool=len(trees))
+        c.adj_format = tape.weighted("tr.adjfmt", [(3, "csr"), (2, "lil"), (1, "coo"), (1, "dense")])
+        c.desc.update(params=dict(c.params), user_token_dictionary=c.user_dict is not None, pool=len(trees),
+                      adjacency_format=c.adj_format)
         return c
 
     def param_objects(self):
@@ -1017,8 +1019,19 @@ class TreeCase(Case):
         return d
 
     def build(self, ids, for_fit=False):
-        return [(self.trees[i][0].copy(), np.asarray(self.trees[i][1], dtype=object).copy() if False else list(self.trees[i][1]))
-                for i in ids], {}
+        out = []
+        for i in ids:
+            adj = self.trees[i][0]
+            if self.adj_format == "lil":
+                adj = adj.tolil()
+            elif self.adj_format == "dense":
+                adj = adj.toarray()
+            elif self.adj_format == "coo":
+                adj = adj.tocoo()
+            else:
+                adj = adj.copy()
+            out.append((adj, list(self.trees[i][1])))
+        return out, {}
 
     def rows(self, out, n):
         return [out]
